@@ -315,7 +315,10 @@ func c19WriterTable(p *Prog, r *Report, mar *FuncInfo) map[string]layoutRow {
 			return true
 		}
 		if id, isId := ast.Unparen(c.Args[0]).(*ast.Ident); isId && objOf(info, id) == dataObj {
-			return true // the whole buffer handed on (not a field write)
+			// the whole buffer: a field write only for the fixed-width byte-order writers (they touch the first bytes)
+			if order, m := byteOrderOf(info, c); order == "" || m != "PutUint64" {
+				return true
+			}
 		}
 		row := layoutRow{Lo: lo, Hi: hi, Pos: p.pos(c)}
 		row.Field = fileFieldIn(mar, c.Args[1], 0)
@@ -344,6 +347,9 @@ func c19WriterTable(p *Prog, r *Report, mar *FuncInfo) map[string]layoutRow {
 				row.Enc = "other-binary:" + m
 			} else if m == "PutUint64" {
 				row.Enc = "uint64-" + order
+				if row.Hi == -1 {
+					row.Hi = row.Lo + 8 // PutUint64 writes exactly eight bytes at the start of the slice it is given
+				}
 			} else {
 				row.Enc = "other-binary:" + order + "." + m
 			}
@@ -410,6 +416,40 @@ func c19ReaderTable(p *Prog, r *Report, unm *FuncInfo) map[string]layoutRow {
 			return true
 		})
 		if se == nil {
+			// the bytes may first be copied into a local id array: copy(txId[:], data[8:24]); f.TxId = txId.String()
+			ast.Inspect(as.Rhs[0], func(y ast.Node) bool {
+				id, ok := y.(*ast.Ident)
+				if !ok || se != nil {
+					return true
+				}
+				o := objOf(info, id)
+				if o == nil {
+					return true
+				}
+				at, isArr := o.Type().Underlying().(*types.Array)
+				if !isArr || at.Len() != 16 {
+					return true
+				}
+				ast.Inspect(unm.Decl.Body, func(z ast.Node) bool {
+					c, ok := z.(*ast.CallExpr)
+					if !ok || len(c.Args) != 2 {
+						return true
+					}
+					if cid, ok := c.Fun.(*ast.Ident); !ok || cid.Name != "copy" {
+						return true
+					}
+					dst, ok := ast.Unparen(c.Args[0]).(*ast.SliceExpr)
+					if !ok || objOf(info, dst.X) != o || dst.Low != nil || dst.High != nil {
+						return true
+					}
+					if l, h, rooted, k := absSlice(unm, dataParam, c.Args[1], 0); rooted && k {
+						se = c.Args[1]
+						row.Lo, row.Hi, row.Enc = l, h, "uuid-bytes"
+					}
+					return true
+				})
+				return true
+			})
 			tab[row.Field] = row
 			return true
 		}
@@ -426,6 +466,9 @@ func c19ReaderTable(p *Prog, r *Report, unm *FuncInfo) map[string]layoutRow {
 						row.Enc = "other-binary:" + m
 					} else if m == "Uint64" {
 						row.Enc = "uint64-" + order
+						if row.Hi == -1 {
+							row.Hi = row.Lo + 8 // Uint64 reads exactly the first eight bytes of the slice
+						}
 					} else {
 						row.Enc = "other-binary:" + order + "." + m
 					}
@@ -590,7 +633,7 @@ func c19Guards(p *Prog, r *Report, mar, unm *FuncInfo) {
 			return true
 		})
 	}
-	r.Floor("C19.b", "unmarshal-slice-sites", len(sites), 4)
+	r.Floor("C19.b", "unmarshal-slice-sites", len(sites), 2)
 	sentinel := "internal/model.ErrInvalidFileFormat"
 	bad := map[string]string{}
 	rejectOK := true
@@ -694,6 +737,37 @@ func c19Guards(p *Prog, r *Report, mar, unm *FuncInfo) {
 			})
 			if be, ok := ast.Unparen(n.Ast.(ast.Expr)).(*ast.BinaryExpr); ok && hasLen && hasFL && (be.Op == token.NEQ || be.Op == token.EQL || be.Op == token.LSS) {
 				guard = append(guard, n.ID)
+			} else if ok && hasLen && hasFL && be.Op == token.LOR {
+				// the length test is one disjunct of a combined rejection: if parseErr != nil || len(data) != fileLen(f)
+				var disj func(e ast.Expr) bool
+				disj = func(e ast.Expr) bool {
+					b, ok := ast.Unparen(e).(*ast.BinaryExpr)
+					if !ok {
+						return false
+					}
+					if b.Op == token.LOR {
+						return disj(b.X) || disj(b.Y)
+					}
+					if b.Op != token.NEQ && b.Op != token.LSS {
+						return false
+					}
+					l, fl := false, false
+					ast.Inspect(b, func(x ast.Node) bool {
+						if c, ok := x.(*ast.CallExpr); ok {
+							if id, ok := c.Fun.(*ast.Ident); ok && id.Name == "len" {
+								l = true
+							}
+							if p.callIs(mar.Pkg, c, kFileLen) {
+								fl = true
+							}
+						}
+						return true
+					})
+					return l && fl
+				}
+				if disj(be) {
+					guard = append(guard, n.ID)
+				}
 			}
 		}
 	}
